@@ -182,6 +182,14 @@ func (c01) Run(c *Ctx, i int) CaseResult {
 		res.Fails = append(res.Fails, Failure{Channel: "L0.mono", Classifier: cl, What: what, Input: fin, Expected: ffc.Want,
 			Observed: map[string]interface{}{"data": ffc.Out.Data, "error": ErrString(ffc.Out.Err), "plan": PlanText(ffc.Out.Plans), "original_query": in.Query}})
 	}
+	if len(res.Fails) == 0 && i%3 == 0 && !fc.Out.PlanErr && !fc.Out.PlanHung && !fc.Out.Hung && fc.Out.Panicked == nil {
+		// L2: the executor's data path (join ids, node stripping, insertion points, stitching) against the executor model
+		xf, note := ExecCorr(c, in)
+		res.Fails = append(res.Fails, xf...)
+		if note != "" {
+			res.Counters["exec_model_"+note]++
+		}
+	}
 	if len(res.Fails) == 0 && i%8 == 0 {
 		// the same transparency when the plan is not made for this request but reused (plan cache, kept plan list)
 		ts := reuseTemplatesFor("node-variable-id", "optional-variable-dependent-step", "optional-variable-on-gateway-field")
